@@ -118,6 +118,21 @@ Qed.
 (* a Python set holds no element twice *)
 Definition wf (k : kind) (l : list elt) : Prop := match k with KList => True | KSet => NoDup l end.
 
+Lemma extend_lazy_model_ok cands : forall s, incl (items s) (rec s) ->
+  items (extend_lazy_model cands s) = extend_lazy_new cands (items s) /\
+  incl (items (extend_lazy_model cands s)) (rec (extend_lazy_model cands s)) /\
+  incl (rec s) (rec (extend_lazy_model cands s)).
+Proof.
+  unfold extend_lazy_model. induction cands as [|c r IH]; intros s Hin; simpl.
+  - split; [reflexivity|]. split; [exact Hin | apply incl_refl].
+  - destruct (memb c (items s)) eqn:Hm.
+    + apply IH. exact Hin.
+    + destruct (IH (add_item KList s c)) as [H1 [H2 H3]].
+      * simpl. intros y Hy. apply in_app_or in Hy. apply in_or_app. destruct Hy as [Hy | Hy]; auto.
+      * simpl in H1. split; [exact H1|]. split; [exact H2|].
+        eapply incl_tran; [|exact H3]. simpl. apply incl_appl, incl_refl.
+Qed.
+
 Lemma step_ok k o s : wf k (items s) -> incl (items s) (rec s) ->
   items (fst (step k o s)) = fst (py_step k o (items s)) /\ snd (step k o s) = snd (py_step k o (items s)) /\
   wf k (items (fst (step k o s))) /\ incl (items (fst (step k o s))) (rec (fst (step k o s))) /\
@@ -156,6 +171,7 @@ Proof.
     apply in_app_or in Hy. destruct Hy as [Hy | Hy]; [right; exact Hy | left; apply Hin; eapply skipn_In; eauto].
   - (* list IAugAlias *) repeat split; auto using incl_appl, incl_refl.
     intros y Hy. apply in_app_or in Hy. apply in_or_app. destruct Hy as [Hy | Hy]; auto.
+  - (* list ExtendLazyNew *) destruct (extend_lazy_model_ok cands s Hin) as [H1 [H2 H3]]. repeat split; auto.
   - (* set Assign *) repeat split; auto using incl_appl, incl_refl.
     + apply set_union_NoDup. constructor.
     + intros y Hy. apply set_union_In in Hy. destruct Hy as [[] | Hy]. apply in_or_app. auto.
@@ -278,7 +294,9 @@ Lemma old_alias_inplace_unrecorded :
   /\ (let s := fst (step KList (IAugAlias [1]) (init KList [])) in In 1 (items s) /\ In 1 (rec s)).
 Proof. simpl. split; split; auto. Qed.
 
-(* x.f.extend(v for v in [1; 1] if v not in x.f) on an empty field: Python adds 1 once, the copy-first extend twice (C16-o) *)
-Theorem refuted_extend_lazy :
-  items (extend_copy_first_new [1; 1] (init KList [])) = [1; 1] /\ extend_lazy_new [1; 1] [] = [1].
-Proof. split; vm_compute; reflexivity. Qed.
+(* regression (before 4de7ec8): x.f.extend(v for v in [1; 1] if v not in x.f) on an empty field: Python adds 1 once, the copy-first extend
+   added it twice; the current step adds it once *)
+Lemma old_extend_copy_first :
+  items (extend_copy_first_new [1; 1] (init KList [])) = [1; 1]
+  /\ items (fst (step KList (ExtendLazyNew [1; 1]) (init KList []))) = [1] /\ extend_lazy_new [1; 1] [] = [1].
+Proof. repeat split; vm_compute; reflexivity. Qed.
